@@ -5,4 +5,5 @@ TARGETS = {
     "c02_position": dict(flavours=["seq", "fast"], src=["harness/c02_position.cpp"], net="stub"),
     "c15_revmovegen": dict(flavours=["seq", "fast"], src=["harness/c15_revmovegen.cpp"], net="stub"),
     "c20_csp": dict(flavours=["seq", "fast"], src=["harness/c20_csp.cpp"], net="stub"),
+    "c17_text": dict(flavours=["seq", "fast"], src=["harness/c17_text.cpp"], net="stub"),
 }
